@@ -20,6 +20,10 @@ func vpH_C12_T_health() {
 		cfg.MaxConsecutiveFailures = n
 	})
 	s.st.ttl = 0 // unhealthy ticks skip the refresh; keep expiry out of this harness
+	// one refresh (of a healthy tick) may fail transiently: the health count must still restart on that tick
+	s.kv.faults = []int{vpFaultErr}
+	s.kv.faultLeft = 1
+	s.kv.faultOps = "update"
 	ticks := thr + 2
 	select {
 	case <-s.demoted:
